@@ -93,9 +93,11 @@ class Aff:
                 n = f.params[s[1]]["name"]
             elif s[0] == "k":
                 n = "iter(%s)" % f.blocks[s[1]].name
-            else:
+            elif s[0] == "i" and isinstance(s[1], int):
                 I = f.insts[s[1]]
                 n = "%s@%s" % (I.op, I.loc.split("/")[-1])
+            else:
+                n = "%s:%s" % (s[0], s[1]) if isinstance(s, tuple) and len(s) > 1 else repr(s)
             out.append(("%s*" % c if c != 1 else "") + n)
         return " + ".join(out) if out else "0"
 
@@ -158,6 +160,10 @@ class Aff:
             return Lin()
         if v[0] == "a":
             return Lin.sym(v)
+        if v[0] == "g":
+            return Lin.sym(("g", v[1]))
+        if v[0] == "ce" and v[1] in ("getelementptr", "bitcast") and v[2] and tuple(v[2][0])[0] == "g" and all(tuple(o)[0] == "c" and int(tuple(o)[1]) == 0 for o in v[2][1:]):
+            return Lin.sym(("g", tuple(v[2][0])[1]))       # &global[0]
         if v[0] != "i":
             return Lin.sym(("x", repr(v)))
         if v in self.memo:
